@@ -5,6 +5,7 @@ import (
 	"go/ast"
 	"go/constant"
 	"go/token"
+	"go/types"
 	"math"
 	"strings"
 	"unicode/utf8"
@@ -256,6 +257,258 @@ func runC15(c *Check) {
 			c.ok("C15-R5", "special:"+s, pos, "target mode "+s, "handled by convertUnit and printed without suffix by Scale for unknown units")
 		} else {
 			c.bad("C15-R5", "special:"+s, pos, "target mode "+s+" is handled by convertUnit but Scale would print it as a unit suffix for values of unknown unit")
+		}
+	}
+	c.valueUnitPairing()
+	c.runningMinimum()
+}
+
+// addrPath describes an address as root value + field path, so two separately emitted
+// FieldAddr chains for the same place compare equal (go/ssa does no CSE).
+func addrPath(v ssa.Value) (ssa.Value, string) {
+	path := ""
+	for {
+		switch x := v.(type) {
+		case *ssa.FieldAddr:
+			_, f := fieldOf(x.X.Type(), x.Field)
+			path = "." + f + path
+			v = x.X
+			continue
+		case *ssa.UnOp:
+			if x.Op == token.MUL {
+				// pointer loaded from a place: keep going only for plain local cells
+				if vals, ok := cellValues(x.X); ok && len(vals) == 1 {
+					v = vals[0]
+					continue
+				}
+			}
+		}
+		return v, path
+	}
+}
+
+// unitFieldLoad: v loads field F of a measurement.Unit; returns the unit's place.
+func unitFieldLoad(v ssa.Value, F string) (ssa.Value, string, bool) {
+	ld, ok := v.(*ssa.UnOp)
+	if !ok || ld.Op != token.MUL {
+		return nil, "", false
+	}
+	fa, ok := ld.X.(*ssa.FieldAddr)
+	if !ok {
+		return nil, "", false
+	}
+	if T, f := fieldOf(fa.X.Type(), fa.Field); T != "measurement.Unit" || f != F {
+		return nil, "", false
+	}
+	r, p := addrPath(fa.X)
+	return r, p, true
+}
+
+// R6: a converted value is always returned together with the name of the unit it was
+// divided by.  Every return of convertUnit that names a unit U's CanonicalName returns
+// v / U.Factor for the same U (or passes on both results of autoScale), and v is the input
+// multiplied by the source unit's factor; autoScale's result pair is selected together.
+func (c *Check) valueUnitPairing() {
+	p := c.P
+	f := c.anchorFn("C15-R6", "internal/measurement", "UnitType.convertUnit")
+	if f == nil {
+		return
+	}
+	n := 0
+	for _, b := range f.Blocks {
+		ret, ok := b.Instrs[len(b.Instrs)-1].(*ssa.Return)
+		if !ok || len(ret.Results) != 3 {
+			continue
+		}
+		if k, ok := ret.Results[2].(*ssa.Const); ok && k.Value != nil && !constant.BoolVal(k.Value) {
+			continue // failure return
+		}
+		n++
+		key := "pair:convertUnit:auto"
+		pos := p.relFile(ret.Pos())
+		val, name := ret.Results[0], ret.Results[1]
+		if _, up0, ok := unitFieldLoad(name, "CanonicalName"); ok {
+			r0, _, _ := unitFieldLoad(name, "CanonicalName")
+			key = "pair:convertUnit:" + r0.Name() + up0
+		}
+		if e1, ok := name.(*ssa.Extract); ok {
+			if e0, ok := val.(*ssa.Extract); ok && e0.Tuple == e1.Tuple && e0.Index == 0 && e1.Index == 1 {
+				c.ok("C15-R6", key, pos, "value and unit come from one auto-scaling result", "both are results of the same call")
+			} else {
+				c.bad("C15-R6", key, pos, "convertUnit returns the unit chosen by auto-scaling with a value that is not the one scaled to it")
+			}
+			continue
+		}
+		ur, up, ok := unitFieldLoad(name, "CanonicalName")
+		if !ok {
+			c.undecided("C15-R6", key, pos, "cannot identify the unit whose name convertUnit returns")
+			continue
+		}
+		q, isQ := val.(*ssa.BinOp)
+		if !isQ || q.Op != token.QUO {
+			c.bad("C15-R6", key, pos, "convertUnit names the result's unit ("+up+".CanonicalName) but returns the value without dividing by that unit's factor: the number is off by the factor between the base unit and the named unit")
+			continue
+		}
+		fr, fp, isF := unitFieldLoad(q.Y, "Factor")
+		if !isF || fr != ur || fp != up {
+			c.bad("C15-R6", key, pos, "convertUnit divides by the factor of a different unit than the one it names")
+			continue
+		}
+		// numerator: float64(value) * fromUnit.Factor
+		num, isM := q.X.(*ssa.BinOp)
+		okNum := false
+		if isM && num.Op == token.MUL {
+			for _, pair := range [][2]ssa.Value{{num.X, num.Y}, {num.Y, num.X}} {
+				cv, isC := pair[0].(*ssa.Convert)
+				if !isC {
+					continue
+				}
+				if _, isP := cv.X.(*ssa.Parameter); !isP {
+					continue
+				}
+				if _, _, isFF := unitFieldLoad(pair[1], "Factor"); isFF {
+					okNum = true
+				}
+			}
+		}
+		if okNum {
+			c.ok("C15-R6", key, pos, "value / "+up+".Factor is returned with "+up+".CanonicalName", "same unit object for divisor and name; numerator is input * source factor")
+		} else {
+			c.bad("C15-R6", key, pos, "the value convertUnit divides is not the input multiplied by the source unit's factor")
+		}
+	}
+	if n < 3 {
+		c.undecided("C15-R6", "pair:convertUnit", p.relFile(f.Pos()), fmt.Sprintf("expected at least 3 successful returns in convertUnit, found %d", n))
+	}
+	// autoScale: factor and name are picked from the same unit in the same step
+	if as := c.anchorFn("C15-R6", "internal/measurement", "UnitType.autoScale"); as != nil {
+		var fphi, nphi *ssa.Phi
+		for _, b := range as.Blocks {
+			for _, ins := range b.Instrs {
+				if ph, ok := ins.(*ssa.Phi); ok {
+					switch bt := ph.Type().Underlying().(*types.Basic); {
+					case bt != nil && bt.Kind() == types.Float64:
+						if fphi == nil || len(ph.Edges) > len(fphi.Edges) {
+							fphi = ph
+						}
+					case bt != nil && bt.Kind() == types.String:
+						if nphi == nil || len(ph.Edges) > len(nphi.Edges) {
+							nphi = ph
+						}
+					}
+				}
+			}
+		}
+		pos := p.relFile(as.Pos())
+		if fphi == nil || nphi == nil {
+			c.undecided("C15-R6", "pair:autoScale", pos, "autoScale's running factor/name pair not found")
+		} else {
+			bad := ""
+			paired := 0
+			// find the selecting phis: any block where a float phi and a string phi have edges (Factor of U, CanonicalName of U)
+			for _, b := range as.Blocks {
+				var fs, ns []*ssa.Phi
+				for _, ins := range b.Instrs {
+					if ph, ok := ins.(*ssa.Phi); ok {
+						if bt, ok := ph.Type().Underlying().(*types.Basic); ok {
+							if bt.Kind() == types.Float64 {
+								fs = append(fs, ph)
+							} else if bt.Kind() == types.String {
+								ns = append(ns, ph)
+							}
+						}
+					}
+				}
+				for _, fp := range fs {
+					for i, e := range fp.Edges {
+						r, pth, ok := unitFieldLoad(e, "Factor")
+						if !ok {
+							continue
+						}
+						match := false
+						for _, np := range ns {
+							if r2, p2, ok := unitFieldLoad(np.Edges[i], "CanonicalName"); ok && r2 == r && p2 == pth {
+								match = true
+							}
+						}
+						if match {
+							paired++
+						} else {
+							bad = "the factor is taken from a unit whose name is not selected in the same step"
+						}
+					}
+				}
+			}
+			if bad != "" || paired == 0 {
+				if bad == "" {
+					bad = "no step selects a unit's factor together with its name"
+				}
+				c.bad("C15-R6", "pair:autoScale", pos, "autoScale: "+bad)
+			} else {
+				c.ok("C15-R6", "pair:autoScale", pos, "autoScale selects factor and name from the same unit", fmt.Sprintf("%d selecting step(s) pair U.Factor with U.CanonicalName", paired))
+			}
+		}
+	}
+}
+
+// R7: CommonValueType keeps the finest unit seen so far and compares every further unit
+// against that running minimum, not against a value fixed before the loop.
+func (c *Check) runningMinimum() {
+	p := c.P
+	f := c.anchorFn("C15-R7", "internal/measurement", "CommonValueType")
+	if f == nil {
+		return
+	}
+	var scale *ssa.Call
+	for _, b := range f.Blocks {
+		for _, ins := range b.Instrs {
+			if call, ok := ins.(*ssa.Call); ok && call.Call.StaticCallee() != nil && call.Call.StaticCallee().Name() == "Scale" && loopDepth(b) > 0 {
+				scale = call
+			}
+		}
+	}
+	if scale == nil {
+		c.undecided("C15-R7", "running-min", p.relFile(f.Pos()), "no unit comparison (call of Scale) inside CommonValueType's loop")
+		return
+	}
+	pos := p.relFile(scale.Pos())
+	// the operands: loads of ValueType.Unit; one of them from a loop-carried phi
+	var phiBase *ssa.Phi
+	var other ssa.Value
+	for _, a := range scale.Call.Args {
+		ld, ok := a.(*ssa.UnOp)
+		if !ok || ld.Op != token.MUL {
+			continue
+		}
+		fa, ok := ld.X.(*ssa.FieldAddr)
+		if !ok {
+			continue
+		}
+		if T, F := fieldOf(fa.X.Type(), fa.Field); T != "profile.ValueType" || F != "Unit" {
+			continue
+		}
+		if ph, ok := fa.X.(*ssa.Phi); ok && loopDepth(ph.Block()) > 0 {
+			phiBase = ph
+		} else {
+			other = fa.X
+		}
+	}
+	switch {
+	case phiBase == nil:
+		c.bad("C15-R7", "running-min", pos, "CommonValueType compares each unit with a value fixed outside the loop instead of the finest unit found so far: with three or more profiles the result depends on their order and a coarser unit can win (finer profiles are then scaled down and lose samples)")
+	case other == nil:
+		c.undecided("C15-R7", "running-min", pos, "second operand of the unit comparison not recognised")
+	default:
+		upd := false
+		for _, e := range phiBase.Edges {
+			if e == other {
+				upd = true
+			}
+		}
+		if upd {
+			c.ok("C15-R7", "running-min", pos, "every unit is compared against the running minimum", "Scale's reference operand reads the loop-carried minimum, which is replaced by the compared element")
+		} else {
+			c.bad("C15-R7", "running-min", pos, "the running minimum of CommonValueType is never replaced by the element it was compared with")
 		}
 	}
 }
